@@ -109,9 +109,11 @@ def overlappingBinsFor (beg end_ : Int) : List Nat :=
 /-- `internal.IsValidIndexPos` -/
 def isValidIndexPos (i : Int) : Bool := decide (-1 ≤ i) && decide (i ≤ 536870910)
 
-/-- `Record.Bin` = `BinFor(Pos, End())` (the mate-unmapped flag plays no role) -/
+/-- `Record.Bin`: `end := r.End(); if end == r.Pos { end++ }; BinFor(r.Pos, end)` — an alignment that
+consumes no reference counts as one base long (repair C16-2; before it `BinFor(Pos, End())`).  The
+mate-unmapped flag plays no role. -/
 def recordBin (unmapped _mateUnmapped : Bool) (pos : Int) (cigar : List CigarOp) : Option Nat :=
-  (recordEnd unmapped pos cigar).map (binFor pos)
+  (recordEnd unmapped pos cigar).map (fun e => binFor pos (if e = pos then e + 1 else e))
 
 /-! ### CSI bins (csi.reg2bin, reg2bins) -/
 
